@@ -3,12 +3,13 @@
   from the Go source by tools/go2lean on every run) equals the hand-written model of `Model/Security.lean`, for
   ALL inputs.  A change of the Go source changes the generated definition and the theorem about it stops
   compiling (or the translator refuses the function): the check of C03 / C11 / C12 reports the theorem's name.
-  The proofs normalise modulo associativity / commutativity of `|||` (`ac_rfl`, `ac_nf`) and, for the setters,
+  The proofs normalise modulo associativity / commutativity of the bitwise operators (`tie_ac`) and, for the setters,
   compare the 24 bytes one by one, so that re-ordering operands or statements and introducing locals is harmless.
 -/
 import Emitter.Lemmas.Bits
 import Emitter.Model.Security
 import Emitter.Generated.GoKey
+set_option linter.unusedSimpArgs false
 namespace Emitter.Tie.Key
 open Emitter Emitter.Security Emitter.Generated.GoKey
 
@@ -16,19 +17,19 @@ open Emitter Emitter.Security Emitter.Generated.GoKey
 
 theorem tie_Salt (k : Key) : goSalt k = k.salt := by
   simp only [goSalt, Key.salt, Key.b]
-  rw [← Bits.or16] <;> ac_rfl
+  rw [← Bits.or16] <;> tie_ac
 
 theorem tie_Master (k : Key) : goMaster k = k.master := by
   simp only [goMaster, Key.master, Key.b]
-  rw [← Bits.or16] <;> ac_rfl
+  rw [← Bits.or16] <;> tie_ac
 
 theorem tie_Contract (k : Key) : goContract k = k.contract := by
   simp only [goContract, Key.contract, Key.b]
-  rw [← Bits.or32] <;> ac_rfl
+  rw [← Bits.or32] <;> tie_ac
 
 theorem tie_Signature (k : Key) : goSignature k = k.signature := by
   simp only [goSignature, Key.signature, Key.b]
-  rw [← Bits.or32] <;> ac_rfl
+  rw [← Bits.or32] <;> tie_ac
 
 theorem tie_Permissions (k : Key) : goPermissions k = k.permissions := by
   simp only [goPermissions, Key.permissions, Key.b]
@@ -36,13 +37,13 @@ theorem tie_Permissions (k : Key) : goPermissions k = k.permissions := by
 /-- the target hash read by `ValidateChannel` -/
 theorem tie_ValidateChannel_target (k : Key) : goValidateChannel_target k = k.target := by
   simp only [goValidateChannel_target, Key.target, Key.b]
-  rw [← Bits.or32] <;> ac_rfl
+  rw [← Bits.or32] <;> tie_ac
 
 /-- the 24-bit path read by `ValidateChannel` -/
 theorem tie_ValidateChannel_targetPath (k : Key) : (goValidateChannel_targetPath k).toNat = k.targetPath := by
   have h : goValidateChannel_targetPath k = be32 0 (k.b 12) (k.b 13) (k.b 14) := by
     simp only [goValidateChannel_targetPath, Key.b]
-    rw [← Bits.or24] <;> ac_rfl
+    rw [← Bits.or24] <;> tie_ac
   have h12 := (k.b 12).toNat_lt; have h13 := (k.b 13).toNat_lt; have h14 := (k.b 14).toNat_lt
   rw [h]; simp [be32, Key.targetPath]; omega
 
@@ -50,12 +51,12 @@ theorem tie_IsMaster (k : Key) : goIsMaster k = k.isMaster := by
   simp [goIsMaster, Key.isMaster, tie_Permissions, permMaster, Generated.secAllowMaster]
 
 theorem tie_HasPermission (k : Key) (flag : UInt8) : goHasPermission k flag = k.hasPermission flag := by
-  simp only [goHasPermission, Key.hasPermission, tie_Permissions] <;> ac_nf
+  simp only [goHasPermission, Key.hasPermission, tie_Permissions] <;> tie_ac
 
 /-- `Expires()` before the conversion to `time.Time`: unix seconds as int64 -/
 theorem tie_Expires (k : Key) : (goExpires_expire k).toInt = k.expires := by
   have h : goExpires_expire k = Bits.expireOf k.expireField := by
-    simp only [goExpires_expire, Bits.expireOf, Key.expireField, Key.b, ← Bits.or32] <;> ac_nf
+    simp only [goExpires_expire, Bits.expireOf, Key.expireField, Key.b, ← Bits.or32] <;> tie_ac
   rw [h, Bits.expireOf_toInt]
   simp [Key.expires, keyTimeOffset, Generated.secKeyTimeOffset]
 
@@ -92,7 +93,7 @@ theorem tie_SetPermission (flag : UInt8) (value : Bool) :
       if value then k.setPermissions (k.permissions ||| flag) else k.setPermissions (k.permissions &&& (0xFF ^^^ flag)) := by
   cases value <;>
     simp only [goSetPermission, tie_SetPermissions k h, tie_Permissions, Bits.not_eq_xor, if_true, if_false, Bool.false_eq_true] <;>
-    ac_nf
+    tie_ac
 
 /-- `SetExpires(t)` with `unix = t.Unix()` -/
 theorem tie_SetExpires (unix : Int64) : goSetExpires k unix = k.setExpires unix.toInt := by
